@@ -659,6 +659,20 @@ func (c *Conn) NotIdleError(ctx string) error {
 			return &StuckError{Where: where + " [" + state + "]", Dump: g}
 		}
 	}
+	// two goroutines inside the message reader at once: the command loop reads the
+	// message while the backend is still reading it (never legitimate: the reader
+	// is not made for it, and each of them loses what the other takes)
+	readers := 0
+	all := string(buf[:n])
+	for _, g := range strings.Split(all, "\n\n") {
+		if strings.Contains(g, "go-smtp.(*dataReader).Read(") {
+			readers++
+		}
+	}
+	if readers >= 2 {
+		atomic.AddInt32(&hangs, 1)
+		return &StuckError{Where: "two goroutines inside (*dataReader).Read at once", Dump: GoroutineDump("dataReader")}
+	}
 	return fmt.Errorf("server did not become idle within %v %s (backend: %s)\n%s", IdleTimeout, ctx, c.beState(), GoroutineDump("go-smtp"))
 }
 
